@@ -3,6 +3,7 @@
 
 #include "ev_spec.h"
 
+#include <stdint.h>
 #include <stdlib.h>
 #include <string.h>
 #include <ctype.h>
@@ -360,10 +361,31 @@ print_arg(struct ev_arg *arg, const char *fmt, struct cursor *c, struct emu_ev *
 {
 	int n = 0;
 	uint8_t *payload = (uint8_t *) ev->payload;
+	size_t payload_size = ev->payload_size;
+
+	/* The payload may be missing */
+	if (payload == NULL) {
+		err("missing payload for argument");
+		return -1;
+	}
+
+	/* Or shorter than declared. Events filled by emu_ev() always have the
+	 * size when there is a payload; otherwise it is not known. */
+	if (payload_size == 0)
+		payload_size = SIZE_MAX;
+
+	if (arg->offset >= payload_size) {
+		err("payload too short for argument");
+		return -1;
+	}
 
 #define CASE(TYPE) \
 		do { \
 			TYPE data; \
+			if (arg->offset + sizeof(data) > payload_size) { \
+				err("payload too short for argument"); \
+				return -1; \
+			} \
 			memcpy(&data, &payload[arg->offset], sizeof(data)); \
 			n = snprintf(c->out, (size_t) c->len, fmt, data); \
 			if (n >= c->len) { \
@@ -385,8 +407,12 @@ print_arg(struct ev_arg *arg, const char *fmt, struct cursor *c, struct emu_ev *
 		case STR:
 			{
 				char *data = (char *) &payload[arg->offset];
-				/* Here we trust the input string to
-				 * contain a nil at the end */
+				/* Ensure the string contains a nil at the end */
+				if (payload_size != SIZE_MAX && memchr(data, '\0',
+							payload_size - arg->offset) == NULL) {
+					err("string argument not terminated");
+					return -1;
+				}
 				int n = snprintf(c->out, (size_t) c->len, fmt, data);
 				if (n >= (int) c->len) {
 					err("no space for string argument");
